@@ -60,6 +60,8 @@ type world struct {
 	suicided    map[string]bool
 	pairCache   map[string]aggregatetypes.TokenPair
 	outstanding []outstanding
+	forwarder, forger, batch common.Address
+	valopers    []string
 }
 
 type intent struct {
@@ -206,6 +208,9 @@ func newWorld(cfg map[string]int64, rec *kernel.Rec) (*world, error) {
 	w.c.EndBlockCommit()
 	if w.c.Halted != "" {
 		return nil, fmt.Errorf("set-up halted: %s", w.c.Halted)
+	}
+	if err := w.setupStaking(); err != nil {
+		return nil, err
 	}
 	w.lastSupply = w.totalSupply()
 	return w, nil
